@@ -605,3 +605,6 @@ func main() {
 		r.Assume("more than 4 goroutines are outside the bound")
 	})
 }
+
+// ModelKey is the layout-independent state key (see seqmc.ModelKeyer).
+func (x *seth) ModelKey() string { return fmt.Sprint(x.m) }
